@@ -44,7 +44,10 @@ static std::string finish(const Toks &a, const Toks &b)
 {
   std::string r = join(a);
   if (a == b) return r + (r.empty() ? "" : " ") + "std 1";
-  return r + " std 0 " + join(b);
+  // keep the segment structure of the nostd observation: the std lane's separators are printed as '/'
+  Toks b2 = b;
+  for (auto &t : b2) if (t == ";") t = "/";
+  return r + " std 0 " + join(b2);
 }
 
 // ------------------------------------------------------------------------------------------ string_view
@@ -115,14 +118,15 @@ static std::string run_sv(const std::vector<Tok> &t)
 // ------------------------------------------------------------------------------------------ span
 struct SpIn { std::string buf; size_t off, cnt, idx, ext; uint8_t val; };
 
-// does constructing a fixed-extent span from (ptr, count) call std::terminate?  (observed in a child process)
+// does constructing a fixed-extent span from (ptr, count) / (first, last) call std::terminate?  (observed in a child process)
 template <size_t N>
-static bool fixed_terminates(uint8_t *p, size_t cnt)
+static bool fixed_terminates(uint8_t *p, size_t cnt, bool first_last)
 {
   pid_t pid = fork();
   if (pid == 0)
   {
     std::set_terminate([]() { _exit(42); });
+    if (first_last) { nostd::span<uint8_t, N> s(p, p + cnt); _exit(s.size() == N ? 0 : 1); }
     nostd::span<uint8_t, N> s(p, cnt);
     _exit(s.size() == N ? 0 : 1);
   }
@@ -134,7 +138,9 @@ static bool fixed_terminates(uint8_t *p, size_t cnt)
 template <size_t N>
 static std::string fixed_elems(uint8_t *p, size_t cnt)
 {
-  if (fixed_terminates<N>(p, cnt)) return "TERM";
+  bool t1 = fixed_terminates<N>(p, cnt, false), t2 = fixed_terminates<N>(p, cnt, true);
+  if (t1 != t2) return "MISMATCH";
+  if (t1) return "TERM";
   nostd::span<uint8_t, N> s(p, cnt);
   nostd::span<uint8_t, N> s2(p, p + cnt);
   nostd::span<const uint8_t, N> cs(s);
@@ -666,29 +672,38 @@ static Toks fr_lane(const std::vector<std::vector<Tok>> &ops, bool use_nostd)
   return o;
 }
 
+static void run_one(const std::vector<Tok> &t, verif::Out &o)
+{
+  if (t.empty()) { o.tag("BADCASE"); return; }
+  if (t[0].is_tag("SV")) { o.add(run_sv(t)); return; }
+  if (t[0].is_tag("SP")) { o.add(run_sp(t)); return; }
+  if (t[0].is_tag("CONV") && t.size() == 2)
+  {
+    o.tag("n").num(conv_index<NostdVar>(t[1].as_ll())).tag("s").num(conv_index<StdVar>(t[1].as_ll()));
+    return;
+  }
+  auto ops = verif::split_toks(t, ";", 1);
+  if (t[0].is_tag("PT"))
+  {
+    PtrLane<NostdFam> a; PtrLane<StdFam> b;
+    o.add(finish(a.run(ops), b.run(ops)));
+  }
+  else if (t[0].is_tag("VR"))
+  {
+    VarLane<NostdVar> a; VarLane<StdVar> b;
+    o.add(finish(a.run(ops), b.run(ops)));
+  }
+  else if (t[0].is_tag("FR")) o.add(finish(fr_lane(ops, true), fr_lane(ops, false)));
+  else o.tag("BADCASE");
+}
+
 int main(int argc, char **argv)
 {
+  // flush after every line, so that a sanitizer abort in the middle of a case never leaves a partial line behind
+  std::cout.setf(std::ios::unitbuf);
   return verif::run_cases(argc, argv, [](const std::vector<Tok> &t, verif::Out &o) {
-    if (t.empty()) { o.tag("BADCASE"); return; }
-    if (t[0].is_tag("SV")) { o.add(run_sv(t)); return; }
-    if (t[0].is_tag("SP")) { o.add(run_sp(t)); return; }
-    if (t[0].is_tag("CONV") && t.size() == 2)
-    {
-      o.tag("n").num(conv_index<NostdVar>(t[1].as_ll())).tag("s").num(conv_index<StdVar>(t[1].as_ll()));
-      return;
-    }
-    auto ops = verif::split_toks(t, ";", 1);
-    if (t[0].is_tag("PT"))
-    {
-      PtrLane<NostdFam> a; PtrLane<StdFam> b;
-      o.add(finish(a.run(ops), b.run(ops)));
-    }
-    else if (t[0].is_tag("VR"))
-    {
-      VarLane<NostdVar> a; VarLane<StdVar> b;
-      o.add(finish(a.run(ops), b.run(ops)));
-    }
-    else if (t[0].is_tag("FR")) o.add(finish(fr_lane(ops, true), fr_lane(ops, false)));
-    else o.tag("BADCASE");
+    try { run_one(t, o); }
+    catch (const std::exception &e) { o.line = "EXCEPTION"; }   // an exception the std lane would not throw either
   });
 }
+
